@@ -64,6 +64,9 @@ func concatChunks(chunks []gg.M) (gg.M, error) {
 	}
 	var all []any
 	for _, c := range chunks {
+		if gg.Unbounded(c) {
+			return nil, errors.New(gg.UnboundedMsg)
+		}
 		all = append(all, c)
 	}
 	v := concatAny(all)
@@ -160,6 +163,9 @@ func invokeEntry(ctx context.Context, bt *gg.Built, input *gg.Val, entry string,
 	obs := &gg.Obs{Log: bt.Rec.Snapshot()}
 	over := bt.Rec.Over // the run and its goroutines have finished
 	switch {
+	case bt.Rec.IsUnbounded():
+		obs.Class = "fail"
+		obs.ErrMsg = gg.UnboundedMsg
 	case over || (res.err != nil && strings.Contains(res.err.Error(), "verif-size-budget")):
 		obs.Class = "budget"
 	case res.p != nil:
